@@ -93,6 +93,7 @@ type pathCtx struct {
 	stdout  []string
 	known   map[int]bool
 	prune   bool
+	choices map[string]uint64 // values of harness Choice()s; not SMT variables, merged into every reported model
 	panicSeen  bool
 	panicStack string
 }
@@ -419,9 +420,18 @@ func (p *pathCtx) assert(c *Term, id, msg string) {
 }
 
 func (p *pathCtx) violation(id, msg string, model map[string]uint64) {
-	v := Violation{ID: id, Msg: msg, Model: copyModel(model), Decisions: append([]Decision(nil), p.trace...)}
+	v := Violation{ID: id, Msg: msg, Model: p.fullModel(model), Decisions: append([]Decision(nil), p.trace...)}
 	v.Observed = p.renderObs(model)
 	p.rec.Violations = append(p.rec.Violations, v)
+}
+
+// fullModel returns model extended with the path's concrete choices.
+func (p *pathCtx) fullModel(model map[string]uint64) map[string]uint64 {
+	out := copyModel(model)
+	for k, v := range p.choices {
+		out[k] = v
+	}
+	return out
 }
 
 func copyModel(m map[string]uint64) map[string]uint64 {
